@@ -107,6 +107,8 @@ type refWalker struct {
 	glob  glob.Glob
 	root  *Node
 	label string
+	// softAll: every dispatch of the file being handled is "not fixed by the statement"
+	softAll bool
 }
 
 func RefScan(cfg *Config) *RefOut {
@@ -148,7 +150,28 @@ func RefScan(cfg *Config) *RefOut {
 				}
 				w.dir(p, gis, false)
 			} else {
+				// A requested FILE that a .gitignore (of an ancestor inside the root) excludes: the
+				// statement can be read both ways (the skip rule excludes it / the explicit request
+				// reaches it), so its dispatch is not asserted - only that it does not depend on the
+				// position of the path in the request list (C01's request-order check).
+				if cfg.UseGitignore && p != "." {
+					comps := strings.Split(p, "/")
+					var gis []giPattern
+					ign := false
+					for k := 0; k < len(comps); k++ {
+						anc := "."
+						if k > 0 {
+							anc = strings.Join(comps[:k], "/")
+						}
+						gis = append(gis, w.gitignoreOf(anc)...)
+						if ignored(gis, strings.Join(comps[:k+1], "/"), k+1 < len(comps)) {
+							ign = true
+						}
+					}
+					w.softAll = ign
+				}
 				w.file(p, n, nil)
+				w.softAll = false
 			}
 		}
 	}
@@ -262,7 +285,7 @@ func (w *refWalker) file(p string, n *Node, gis []giPattern) {
 		}
 		return 0, false, nil
 	}
-	soft := target == nil || target.Kind != "file"
+	soft := target == nil || target.Kind != "file" || w.softAll
 	for i := range w.cfg.Extractors {
 		e := &w.cfg.Extractors[i]
 		if !e.Pred.Eval(p, st) {
